@@ -352,7 +352,7 @@ class ContractInterp(Interp):
                 o = r[1]
                 v = self.st.heap.get((o.ref, r[2]))
                 keys.add((o.ref, r[2]))
-                if isinstance(v, (VSeq, VSet, VMap, VList, VDict)):
+                if isinstance(v, (VSeq, VSet, VMap, VList, VDict)) or getattr(v, "kind", "") == "hmap":
                     for sub in ("seq", "set", "dom", "val", "items"):
                         keys.add((v.ref, sub))
             elif r[0] == "raw":
